@@ -56,6 +56,7 @@ fn main() {
         }
     }
     dynif::install_quiet_panic_hook();
+    dynif::start_watchdog(out.clone(), scenario.clone(), std::time::Duration::from_secs(30));
     let thorough = tier == "thorough";
     let mut tr = rec::Trace::new();
     let mut rng = Rng::new(seed ^ 0x5eed_0000);
